@@ -184,18 +184,27 @@ let eval_line (fields : string list) : (string * string) list =
             fail "oracle.C04" ("accepted bytes are not the serialization of the returned value; spec_enc=" ^
                                (if M.has_ty t v then hex_of_bytes (M.spec_enc t v) else "(ill-typed)"))
         end;
-        (* maps and sets: forward direction (C04) and collection semantics (C19) *)
+        (* maps and sets: forward direction (C04) and collection semantics (C19).  The accepted bytes must
+           be a well-formed list of entries and the result the collection of the listed entries -- at
+           every depth: an entry that itself holds a set or a map is judged by its own entry list
+           ([list_view] / [collect_rec]), not by the canonical re-serialization of the collection it
+           decodes to (an inner set listed with a duplicate is a valid encoding of that set). *)
         (match t with
          | M.TSet _ | M.TMap _ ->
            let lt, is_map = match t with
-             | M.TSet a -> M.TList a, false
-             | M.TMap (k, w) -> M.TList (M.TContainer (false, [k; w])), true
+             | M.TSet a -> M.TList (list_view a), false
+             | M.TMap (k, w) -> M.TList (M.TContainer (false, [list_view k; list_view w])), true
              | _ -> t, false in
+           let ct = match t with
+             | M.TSet a -> M.TList a
+             | M.TMap (k, w) -> M.TList (M.TContainer (false, [k; w]))
+             | _ -> t in
            (match M.dec lt bs with
             | M.Ok (M.VList es) ->
               if not (M.valid_b lt bs (M.VList es)) then
                 fail "oracle.C04" "accepted bytes are not a well-formed entry list";
-              if M.VList (M.collect_entries is_map es) <> v then
+              let es' = (match collect_rec ct (M.VList es) with M.VList l -> l | _ -> es) in
+              if M.VList (M.collect_entries is_map es') <> v then
                 fail "oracle.C19" "decoded collection is not the collection of the listed entries"
             | _ -> fail "oracle.C19" "accepted bytes are not a well-formed entry list";
                    fail "oracle.C04" "accepted bytes are not a well-formed entry list");
